@@ -263,6 +263,7 @@ type c39sim struct {
 	hist    []byte // preset dictionary + everything decompressed so far (last 32 KiB)
 	pending []byte
 	started bool
+	nozlib  bool
 }
 
 func c39newSim() *c39sim { return &c39sim{hist: []byte(headerDictionary)} }
@@ -291,6 +292,15 @@ func (s *c39sim) next(wire []byte) (ok bool, field uint32, shown []byte) {
 		if length < fixed {
 			return true, 0, nil
 		}
+	}
+	if s.nozlib {
+		// the reader parses the block straight from the connection, not limited by the frame
+		_, mx, _ := c39walk(wire[8+fixed:])
+		d := wire[8+fixed:]
+		if len(d) > 64 {
+			d = d[:64]
+		}
+		return mx <= c39SafeLen, mx, d
 	}
 	payload := wire[8+fixed : 8+length]
 	if !s.started {
@@ -487,26 +497,65 @@ func c39plainSyms() []*c39sym {
 		{"WINDOW_UPDATE(1,max)", "window_update", nil, func() Frame { return &WindowUpdateFrame{StreamId: 1, DeltaWindowSize: 0x7fffffff} }},
 		{"DATA(1,fin,hello)", "data", nil, func() Frame { return &DataFrame{StreamId: 1, Flags: DataFlagFin, Data: []byte("hello")} }},
 		{"DATA(2,empty)", "data", nil, func() Frame { return &DataFrame{StreamId: 2} }},
-		{"SYN_STREAM(id0)!", "syn_stream", nil, func() Frame { return &SynStreamFrame{StreamId: 0, Headers: http.Header{"a": {"b"}}} }},
+		// writes the framer refuses; the headers of a refused frame are recognisable
+		{"SYN_STREAM(id0)!", "syn_stream", nil, func() Frame { return &SynStreamFrame{StreamId: 0, Headers: c39refusedHeaders} }},
 		{"DATA(id0)!", "data", nil, func() Frame { return &DataFrame{StreamId: 0, Data: []byte("zz")} }},
+		{"SYN_REPLY(id0)!", "syn_reply", nil, func() Frame { return &SynReplyFrame{StreamId: 0, Headers: c39refusedHeaders} }},
+		{"HEADERS(id0)!", "headers", nil, func() Frame { return &HeadersFrame{StreamId: 0, Headers: c39refusedHeaders} }},
+		{"DATA(id bit31)!", "data", nil, func() Frame { return &DataFrame{StreamId: 0x80000001, Data: []byte("zz")} }},
+		{"DATA(oversize)!", "data", nil, func() Frame { return &DataFrame{StreamId: 1, Data: c39oversize()} }},
 	}
+}
+
+var c39refusedHeaders = http.Header{"x-refused": {"belongs-to-nobody"}, "set-cookie": {"secret"}}
+
+var c39big []byte
+
+func c39oversize() []byte { // MaxDataLength+1 bytes, allocated once, never touched
+	if c39big == nil {
+		c39big = make([]byte, MaxDataLength+1)
+	}
+	return c39big
+}
+
+// c39nozlib selects the Framer pair of the current Part A / A1 pass: false = NewFramer (zlib
+// header compression, as in production), true = headerCompressionDisabled (bfe's test mode).
+var c39nozlib bool
+
+func c39framer(w io.Writer, rd io.Reader) (*Framer, func(), error) {
+	if c39nozlib {
+		return &Framer{headerCompressionDisabled: true, w: w, headerBuf: new(bytes.Buffer), r: rd}, func() {}, nil
+	}
+	f, err := NewFramer(w, rd)
+	if err != nil {
+		return nil, func() {}, err
+	}
+	return f, f.ReleaseWriter, nil
+}
+
+func c39modeKey(fam string) string {
+	if c39nozlib {
+		return fam + "-nozlib"
+	}
+	return fam
 }
 
 // c39runSeq writes syms through one Framer, reads them back through another, and judges.
 func c39runSeq(r *vk.Run, id string, syms []*c39sym) {
 	var wire bytes.Buffer
-	wf, err := NewFramer(&wire, nil)
+	wf, wrel, err := c39framer(&wire, nil)
 	if err != nil {
 		r.Violation("machinery:newframer", id, err.Error())
 		return
 	}
-	defer wf.ReleaseWriter()
+	defer wrel()
 	type rec struct {
 		sym *c39sym
 		fr  Frame
 	}
 	var written []rec
 	partialType, partialAt := "", -1
+	refusedType, refusedAt := "", -1 // first refused write that left nothing on the wire
 	hdrFrames := 0
 	for _, s := range syms {
 		fr := s.mk()
@@ -520,6 +569,8 @@ func c39runSeq(r *vk.Run, id string, syms []*c39sym) {
 			r.Outcome("write-refused:" + c39errClass(werr))
 			if wire.Len() != before && partialAt < 0 {
 				partialType, partialAt = s.typ, len(written)
+			} else if wire.Len() == before && refusedAt < 0 {
+				refusedType, refusedAt = s.typ, len(written)
 			}
 			continue
 		}
@@ -532,13 +583,14 @@ func c39runSeq(r *vk.Run, id string, syms []*c39sym) {
 		r.NontrivialN(1)
 	}
 	rd := &c39reader{b: wire.Bytes()}
-	rf, err := NewFramer(io.Discard, rd)
+	rf, rrel, err := c39framer(io.Discard, rd)
 	if err != nil {
 		r.Violation("machinery:newframer", id, err.Error())
 		return
 	}
-	defer rf.ReleaseWriter()
+	defer rrel()
 	sim := c39newSim()
+	sim.nozlib = c39nozlib
 	for i, w := range written {
 		cause := func(kind string) string {
 			if partialAt >= 0 && i >= partialAt {
@@ -546,6 +598,10 @@ func c39runSeq(r *vk.Run, id string, syms []*c39sym) {
 			}
 			if w.sym.hs != nil && w.sym.hs.lenChanging() {
 				return "roundtrip:name-length-changes-on-lowercase:" + kind
+			}
+			if refusedAt >= 0 && i >= refusedAt {
+				// "a refused frame leaves no trace": a frame accepted after a refused one differs
+				return "roundtrip:after-refused-write:" + refusedType + ":" + kind
 			}
 			cl := "-"
 			if w.sym.hs != nil {
@@ -618,7 +674,7 @@ func c39partA1(r *vk.Run, hsets []*c39hset) {
 					for _, slot := range []uint8{0, 1, 255} {
 						for _, fl := range []ControlFlags{0, 1, 2, 3} {
 							sid, assoc, pri, slot, fl := sid, assoc, pri, slot, fl
-							one(vk.Key("one", "syn_stream", hs.name, sid, assoc, pri, slot, fl), &c39sym{"SYN_STREAM(" + hs.name + ")", "syn_stream", hs, func() Frame {
+							one(vk.Key(c39modeKey("one"), "syn_stream", hs.name, sid, assoc, pri, slot, fl), &c39sym{"SYN_STREAM(" + hs.name + ")", "syn_stream", hs, func() Frame {
 								return &SynStreamFrame{CFHeader: ControlFrameHeader{Flags: fl}, StreamId: sid, AssociatedToStreamId: assoc, Priority: pri, Slot: slot, Headers: hs.h}
 							}})
 						}
@@ -627,10 +683,10 @@ func c39partA1(r *vk.Run, hsets []*c39hset) {
 			}
 			for _, fl := range []ControlFlags{0, 1} {
 				sid, fl := sid, fl
-				one(vk.Key("one", "syn_reply", hs.name, sid, fl), &c39sym{"SYN_REPLY(" + hs.name + ")", "syn_reply", hs, func() Frame {
+				one(vk.Key(c39modeKey("one"), "syn_reply", hs.name, sid, fl), &c39sym{"SYN_REPLY(" + hs.name + ")", "syn_reply", hs, func() Frame {
 					return &SynReplyFrame{CFHeader: ControlFrameHeader{Flags: fl}, StreamId: sid, Headers: hs.h}
 				}})
-				one(vk.Key("one", "headers", hs.name, sid, fl), &c39sym{"HEADERS(" + hs.name + ")", "headers", hs, func() Frame {
+				one(vk.Key(c39modeKey("one"), "headers", hs.name, sid, fl), &c39sym{"HEADERS(" + hs.name + ")", "headers", hs, func() Frame {
 					return &HeadersFrame{CFHeader: ControlFrameHeader{Flags: fl}, StreamId: sid, Headers: hs.h}
 				}})
 			}
@@ -639,7 +695,7 @@ func c39partA1(r *vk.Run, hsets []*c39hset) {
 	for _, sid := range []StreamId{1, 0x7fffffff} {
 		for _, st := range []RstStreamStatus{1, 2, 3, 4, 5, 6, 7, 8, 9, 10, 11, 0xffffffff} {
 			sid, st := sid, st
-			one(vk.Key("one", "rst", sid, st), &c39sym{"RST", "rst_stream", nil, func() Frame { return &RstStreamFrame{StreamId: sid, Status: st} }})
+			one(vk.Key(c39modeKey("one"), "rst", sid, st), &c39sym{"RST", "rst_stream", nil, func() Frame { return &RstStreamFrame{StreamId: sid, Status: st} }})
 		}
 	}
 	ents := []SettingsFlagIdValue{{0, 1, 0}, {1, 7, 0xffffffff}, {2, 0xffffff, 1}, {0xff, 0, 0}}
@@ -661,32 +717,32 @@ func c39partA1(r *vk.Run, hsets []*c39hset) {
 	for si, ss := range setSeqs {
 		for _, fl := range []ControlFlags{0, 1} {
 			ss, fl := ss, fl
-			one(vk.Key("one", "settings", si, fl), &c39sym{"SETTINGS", "settings", nil, func() Frame {
+			one(vk.Key(c39modeKey("one"), "settings", si, fl), &c39sym{"SETTINGS", "settings", nil, func() Frame {
 				return &SettingsFrame{CFHeader: ControlFrameHeader{Flags: fl}, FlagIdValues: append([]SettingsFlagIdValue(nil), ss...)}
 			}})
 		}
 	}
 	for _, pid := range []uint32{1, 2, 0xffffffff} {
 		pid := pid
-		one(vk.Key("one", "ping", pid), &c39sym{"PING", "ping", nil, func() Frame { return &PingFrame{Id: pid} }})
+		one(vk.Key(c39modeKey("one"), "ping", pid), &c39sym{"PING", "ping", nil, func() Frame { return &PingFrame{Id: pid} }})
 	}
 	for _, last := range []StreamId{0, 1, 0x7fffffff} {
 		for _, st := range []GoAwayStatus{0, 1, 2, 0xffffffff} {
 			last, st := last, st
-			one(vk.Key("one", "goaway", last, st), &c39sym{"GOAWAY", "goaway", nil, func() Frame { return &GoAwayFrame{LastGoodStreamId: last, Status: st} }})
+			one(vk.Key(c39modeKey("one"), "goaway", last, st), &c39sym{"GOAWAY", "goaway", nil, func() Frame { return &GoAwayFrame{LastGoodStreamId: last, Status: st} }})
 		}
 	}
 	for _, sid := range []StreamId{0, 1, 0x7fffffff} {
 		for _, d := range []uint32{0, 1, 0x7fffffff} {
 			sid, d := sid, d
-			one(vk.Key("one", "wu", sid, d), &c39sym{"WINDOW_UPDATE", "window_update", nil, func() Frame { return &WindowUpdateFrame{StreamId: sid, DeltaWindowSize: d} }})
+			one(vk.Key(c39modeKey("one"), "wu", sid, d), &c39sym{"WINDOW_UPDATE", "window_update", nil, func() Frame { return &WindowUpdateFrame{StreamId: sid, DeltaWindowSize: d} }})
 		}
 	}
 	for _, sid := range []StreamId{1, 0x7fffffff} {
 		for _, fl := range []DataFlags{0, 1, 0xff} {
 			for _, n := range []int{0, 1, 4096, 65536} {
 				sid, fl, n := sid, fl, n
-				one(vk.Key("one", "data", sid, fl, n), &c39sym{"DATA", "data", nil, func() Frame {
+				one(vk.Key(c39modeKey("one"), "data", sid, fl, n), &c39sym{"DATA", "data", nil, func() Frame {
 					return &DataFrame{StreamId: sid, Flags: fl, Data: bytes.Repeat([]byte{'d'}, n)}
 				}})
 			}
@@ -706,13 +762,13 @@ func c39partA(r *vk.Run, hsets []*c39hset) (nsym, depth, nsym4 int) {
 	}
 	plain := c39plainSyms()
 	syms = append(syms, plain...)
-	small = append(small, plain[0], plain[1], plain[3], plain[4], plain[5], plain[8], plain[10])
+	small = append(small, plain[0], plain[1], plain[3], plain[4], plain[5], plain[8], plain[10], plain[12], plain[13], plain[14])
 	depth = 3
 	idx := 0
 	// all sequences of length 1..3 (sharded on the first two symbols; length-1 sequences are
 	// covered by Part A1 and by the prefixes here on the shard that owns (s, first))
 	for i, s := range syms {
-		id := vk.Key("seq", fmt.Sprint([]int{i}))
+		id := vk.Key(c39modeKey("seq"), fmt.Sprint([]int{i}))
 		idx++
 		if r.Mine(idx) && r.Case(id) {
 			c39runSeq(r, id, []*c39sym{s})
@@ -724,12 +780,12 @@ func c39partA(r *vk.Run, hsets []*c39hset) (nsym, depth, nsym4 int) {
 			if !r.Mine(idx) {
 				continue
 			}
-			id := vk.Key("seq", fmt.Sprint([]int{i, j}))
+			id := vk.Key(c39modeKey("seq"), fmt.Sprint([]int{i, j}))
 			if r.Case(id) {
 				c39runSeq(r, id, []*c39sym{s, s2})
 			}
 			for k, s3 := range syms {
-				id := vk.Key("seq", fmt.Sprint([]int{i, j, k}))
+				id := vk.Key(c39modeKey("seq"), fmt.Sprint([]int{i, j, k}))
 				if r.Case(id) {
 					c39runSeq(r, id, []*c39sym{s, s2, s3})
 				}
@@ -749,7 +805,7 @@ func c39partA(r *vk.Run, hsets []*c39hset) (nsym, depth, nsym4 int) {
 				}
 				for k, s3 := range small {
 					for l, s4 := range small {
-						id := vk.Key("seq4", fmt.Sprint([]int{i, j, k, l}))
+						id := vk.Key(c39modeKey("seq4"), fmt.Sprint([]int{i, j, k, l}))
 						if r.Case(id) {
 							c39runSeq(r, id, []*c39sym{s, s2, s3, s4})
 						}
@@ -917,6 +973,16 @@ func c39partB1(r *vk.Run) {
 		}
 		if err != nil {
 			r.Outcome("hdr:err:" + c39errClass(err))
+			if sentinels {
+				// Recorded, not judged: the statement demands nothing of the stream behind a
+				// refused frame (bfe's serve loop closes the connection on every ReadFrame error).
+				// Only attempted when no decompressor was created (its state is unknowable here).
+				if rf.headerDecompressor == nil {
+					var bad string
+					vk.Guard(func() { bad = c39readSentinels(rf) })
+					r.Outcome(fmt.Sprintf("hdr:after-refused-read:next-frames-intact=%v", bad == ""))
+				}
+			}
 			return
 		}
 		r.NontrivialN(1)
@@ -1292,12 +1358,17 @@ func TestVerifC39(t *testing.T) {
 	r := vk.Start(t, "C39")
 	defer r.Finish()
 	hsets := c39hsets()
-	c39partA1(r, hsets)
-	nsym, depth, nsym4 := c39partA(r, hsets)
+	var nsym, depth, nsym4 int
+	for _, off := range []bool{false, true} {
+		c39nozlib = off
+		c39partA1(r, hsets)
+		nsym, depth, nsym4 = c39partA(r, hsets)
+	}
+	c39nozlib = false
 	c39partB1(r)
 	nforged := c39partB2(r)
 	nw, maxW := c39partB3(r)
-	r.Set("bounds", fmt.Sprintf("A1: 9 frame types x field alphabets x %d header sets; A: all sequences of <=%d frames over %d frame symbols (incl. 4 refused writes) through one Framer pair, + length-4 sequences over %d symbols (thorough only: %v); B1: 12 control types x versions x 4 flags x ~17 declared lengths x {complete+sentinels, cut}; B2: 3 frame types x %d forged header blocks x 3 frame-length adjustments; B3: all streams of <=%d words over %d words; allocation bound %d + %d*(8+declared length)",
+	r.Set("bounds", fmt.Sprintf("A1: 9 frame types x field alphabets x %d header sets; A: all sequences of <=%d frames over %d frame symbols (incl. 8 writes the framer refuses) through one Framer pair, once with zlib header compression and once with headerCompressionDisabled, + length-4 sequences over %d symbols (thorough only: %v); B1: 12 control types x versions x 4 flags x ~17 declared lengths x {complete+sentinels, cut}; B2: 3 frame types x %d forged header blocks x 3 frame-length adjustments; B3: all streams of <=%d words over %d words; allocation bound %d + %d*(8+declared length)",
 		len(hsets), depth, nsym, nsym4, r.Thorough(), nforged, maxW, nw, c39K0, c39C))
 	r.Sample(map[string]interface{}{"header_set_classes": func() []string {
 		var s []string
